@@ -520,6 +520,9 @@ func runC12(w *W) {
 	w.World.GuardGrowth = !so.NoBinary
 	w.worldFacts = map[string]string{"has_base64": fmt.Sprint(!so.NoBinary)}
 	sch := genSchema(t, so)
+	// the exception of the response wrapper may have an id beyond the wrapper's own one-word bitmap
+	sch.ExcID = pickInt(t, "sch.excid", 1, 1, 64, 100, 300)
+	sch.IDL = renderIDL(sch)
 	po := thrift.Options{UseDefaultValue: so.Defaults}
 	sh := &c12Shared{rootT: sch.Root}
 	var fn *thrift.FunctionDescriptor
@@ -528,7 +531,7 @@ func runC12(w *W) {
 	// exception message: response struct {1: SimExc{1: code, 2: msg}}
 	sh.respDesc = fn.Response()
 	emsg := vgenStr(t, 40)
-	sh.excMsg = append([]byte{tSTRUCT, 0, 1, tI32, 0, 1, 0, 0, 1, 0x90, tSTRING, 0, 2, 0, 0, 0, byte(len(emsg))}, emsg...)
+	sh.excMsg = append([]byte{tSTRUCT, byte(sch.ExcID >> 8), byte(sch.ExcID), tI32, 0, 1, 0, 0, 1, 0x90, tSTRING, 0, 2, 0, 0, 0, byte(len(emsg))}, emsg...)
 	sh.excMsg = append(sh.excMsg, 0, 0)
 	ec := t2j.NewBinaryConv(conv.Options{ConvertException: true})
 	sh.excConv = &ec
